@@ -496,13 +496,4 @@ Proof.
   - apply Abs_init.
 Qed.
 
-(* full refinement: along every operation sequence the abstraction relation holds, i.e. RInv (Inv), equal cursors,
-   and the byte map of the slots equals the first-write-wins map at and above the consumed offset *)
-Lemma abs_all : forall ops st s, Forall wf_op ops -> Abs st s ->
-  Abs (fold_left (fun st o => fst (rstep st o)) ops st)
-      (fold_left (fun s' on => fst (sstep_with s' (fst on) (snd on)))
-                 (snd (fold_left (fun acc o => (fst (rstep (fst acc) o), snd acc ++ [(o, popped_n (fst acc) o)])) ops (st, [])))
-                 s).
-Proof.
-Abort.
 End WithWrite2.
